@@ -407,6 +407,21 @@ def audit(db, eff, chk, uname):
     for op, d in sorted(impls.items()):
         for fn in d["fns"]:
             if fn.is_ctor:
+                # a parameter read while the implementation is constructed is frozen for the
+                # lifetime of the graph (operators are shared with the caller, who may change them)
+                nodes = []
+                for ini in fn.d.get("inits", []) or []:
+                    if ini.get("init") is not None:
+                        nodes.extend(walk(ini["init"]))
+                nodes.extend(walk(fn.body))
+                for n in nodes:
+                    if n.get("k") == "member" and n.get("mk") == "field" and n.get("cls") == op:
+                        chk.ob("C09-P5", "%s implementation constructor reads parameter %s [%s]"
+                               % (op.split("::")[-1], n["n"], uname), False, where=fn.loc(n),
+                               function=fn.bn, construct="ctor-param(%s)" % n["n"],
+                               detail="the value in force at construction is used for every later "
+                               "update: a later change of the parameter is ignored",
+                               extra={"unit": uname})
                 continue
             sites = []
 
